@@ -36,7 +36,7 @@ type distMonitor struct {
 var distTol = big.NewRat(1, 1_000_000)
 
 func (m *distMonitor) Init(r *kernel.Run) {
-	p := r.Chain.App.CfedistributorKeeper.GetParams(r.Chain.Ctx())
+	p := r.Chain.DistParams()
 	m.model = models.NewDistModel(DistModelSubs(p))
 	m.mainAddr = kernel.DistMainAddr().String()
 	m.shape = distShape(p)
@@ -85,7 +85,7 @@ func (m *distMonitor) BeforeBlock(r *kernel.Run, b *kernel.Block) {
 	m.pre = r.Chain.AllBalances()
 	m.preSpendable = map[string]sdk.Coins{}
 	// a governance update may have replaced the configuration
-	p := r.Chain.App.CfedistributorKeeper.GetParams(r.Chain.Ctx())
+	p := r.Chain.DistParams()
 	m.model.SetConfig(DistModelSubs(p))
 	if len(b.BankFail) > 0 || (r.Chain.Bank != nil && (len(r.Chain.Bank.FailDest) > 0 || r.Chain.Bank.FailBurn)) || len(b.FailDestOn) > 0 {
 		m.faultsSeen = true
@@ -396,7 +396,7 @@ func (m *distMonitor) String() string { return fmt.Sprintf("distMonitor(%s)", m.
 // (the bank's coinbase events of the minter module, which is also the block's supply increase by minting).
 func (m *distMonitor) checkMintEvent(r *kernel.Run, evs []abci.Event, mints []transferEv) {
 	minterAddr := kernel.ModuleAddr("cfeminter").String()
-	denom := r.Chain.App.CfeminterKeeper.GetParams(r.Chain.Ctx()).MintDenom
+	denom := r.Chain.MinterParams().MintDenom
 	minted := sdk.ZeroInt()
 	for _, mt := range mints {
 		if mt.from == minterAddr {
